@@ -84,7 +84,8 @@ pub fn generate(out: &mut Out, prop: &str, thorough: bool, seed: u64) {
         "C12" => client::gen_c12(out, &mut rng, thorough),
         "C13" => {
             client::gen_c13(out, &mut rng, thorough);
-            client::gen_c13_second_send(out, &mut rng, thorough)
+            client::gen_c13_second_send(out, &mut rng, thorough);
+            netgen::gen_c13_sync(out, &mut rng, thorough)
         }
         "C14" => {
             server::gen_c14(out, &mut rng, thorough);
@@ -237,7 +238,10 @@ fn judge(out: &mut Out, l: &str, r: &str) {
         "C10" => client::mon_c10(out, &l, &r),
         "C11" => stream::mon_c11(out, &l, &r),
         "C12" => client::mon_c12(out, &l, &r),
-        "C13" => client::mon_c13(out, &l, &r),
+        "C13" => {
+            client::mon_c13(out, &l, &r);
+            netgen::mon_c13_sync(out, &l, &r)
+        }
         "C14" => {
             server::mon_c14(out, &l, &r);
             netgen::mon_c14_accept(out, &l, &r);
